@@ -18,11 +18,76 @@ PROPS = {
         "not_covered": ["floating-point rounding in the four additions/subtractions (the Verus model is exact)", "that u is uniformly distributed", "stationarity on infinite state spaces (only the finite detailed-balance identity is a lemma)"],
         "assumptions": ["Target::unnorm_logp returns self.lp(position); Proposal::logp returns self.lq(from,to); Proposal::sample leaves lq unchanged"],
     },
+    "C05": {
+        "units": ["gibbs"],
+        "design_ref": "DESIGN.md §8 C05",
+        "technique": "Verus deductive proof of a relational sweep contract on the extracted GibbsMarkovChain::step, generic over Conditional/state type, with ghost call history built in the loop",
+        "level_text": "Unbounded deductive proof (Verus/z3), generic over every Conditional implementation, state type and dimension, that one step makes exactly one conditional call per coordinate, each on the current state with all earlier answers written, writes each answer to its coordinate only and changes nothing else; the witness (sequence of conditional values, states, answers, visiting order) is built as ghost state in the loop of the real body.",
+        "level_note": "Assumes only that a Conditional::sample call is some relation between (conditional before, index, state passed, conditional after, result). Invariance of the joint under full conditionals is the textbook corollary and is not mechanised.",
+        "explanation": "GibbsMarkovChain::step after rule R-foreach; postcondition gibbs_step_post is existential over the call history and the visiting order",
+        "not_covered": ["'hence leaves the joint distribution invariant' (probabilistic corollary, not mechanised)"],
+        "assumptions": ["Conditional::sample is an arbitrary relation sample_rel(pre, index, given, post, ret) — no functional or stateless assumption"],
+    },
+    "C07": {
+        "units": ["mh", "gibbs", "core"],
+        "design_ref": "DESIGN.md §8 C07",
+        "technique": "Verus deductive proof of seed-derivation contracts (total for every u64 seed, per-chain generator state = seeded(f(seed,i))) and of step/run contracts that define the new sampler value as a function of the old one over a functional PRNG model",
+        "level_text": "Unbounded deductive proof (Verus/z3), for every u64 seed (wrapping offsets included) and every chain count, that seeding is total (no overflow obligation fails), that chain i's generator state is exactly seeded(f(seed, i)) and nothing else changes, that the seeded initialisers are functions of their arguments, and that each step consumes randomness only from generators the sampler owns (no ambient source on the run path), which makes the output a function of (inputs, seed).",
+        "level_note": "Thread-count/schedule independence is *reduced* to the assumed rayon contract of rule R-par plus Rust's exclusive &mut per chain; real interleavings are not modelled. 'Different seeds give different output' is reduced to injectivity of the seed derivation; that different generator seeds give different streams is PRNG quality (assumed). Gibbs: only for conditionals that are deterministic given their own state.",
+        "explanation": "seed/set_seed bodies are verified with automatic overflow obligations; determinism is functional dependence in the step/run postconditions",
+        "not_covered": ["actual thread interleavings", "other samplers running concurrently in the process (follows from 'no ambient randomness on the run path', not separately modelled)", "different seeds => different output beyond injectivity of the derived seeds"],
+        "assumptions": ["SmallRng::seed_from_u64(s) yields state seeded(s); every draw is a function of the state", "Proposal::set_seed(s) yields stream seeded(s) and keeps the density"],
+    },
+    "C08": {
+        "units": ["mh"],
+        "design_ref": "DESIGN.md §8 C08",
+        "technique": "Verus deductive proof of pairwise-distinct stream identifiers as postconditions of the extracted constructors/seeders (ghost stream = generator state; Clone law makes shared streams visible)",
+        "level_text": "Unbounded deductive proof (Verus/z3) for every seed and chain count: after MetropolisHastings::new and ::seed no two chains hold the same proposal stream or acceptance stream, and no proposal stream equals any acceptance stream of the sampler.",
+        "level_note": "Assumes: seeded(a) != seeded(b) for a != b (PRNG seeding is injective); user Clone yields an equal value (so a cloned proposal provably shares its stream); Proposal::set_seed(s) yields stream seeded(s). For unseeded construction the acceptance generators come from OS entropy, whose pairwise distinctness is probabilistic and is not claimed.",
+        "explanation": "mh_streams_distinct(chains) is a postcondition of seed(); proposal-stream distinctness a postcondition of new()",
+        "not_covered": ["distinctness of two OS-entropy seeds (probabilistic)", "HMC row streams and NUTS chains until their units are listed under functions_under_contract"],
+        "assumptions": ["ax_seeded_injective", "VClone law r == *self for user proposals/targets"],
+    },
+    "C09": {
+        "units": ["core", "mh", "gibbs"],
+        "design_ref": "DESIGN.md §8 C09",
+        "technique": "Verus deductive proof of history-existential contracts on run_chain, ChainRunner::run and the sampler constructors (extracted bodies, loop invariants with ghost histories)",
+        "level_text": "Unbounded deductive proof (Verus/z3) for every n_collect, n_discard, dimension, chain count and every MarkovChain/HasChains implementation: run_chain performs exactly n_collect+n_discard transitions, row k is the state after n_discard+k+1 of them, the chain is left at the last one; ChainRunner::run returns row c from chain c in order; constructors start chain c at initial_states[c]; runs compose (continuation lemma).",
+        "level_note": "Assumes: rayon's indexed parallel map is an in-order map whose closure instances touch only their own chain (rule R-par); ndarray zeros/row assignment/stack/from_shape contracts (prelude/ndarray.rs); MarkovChain::step keeps the state length. HMC::run / NUTS::run are covered by their own units when listed under functions_under_contract.",
+        "explanation": "run_post is existential over the sequence of chain values linked by the trait's step relation",
+        "not_covered": ["real thread interleavings inside rayon (assumed contract)"],
+        "assumptions": ["MarkovChain::step is an arbitrary relation step_rel(pre, post) that keeps the state length and returns the new state", "HasChains::chains_mut returns the sampler's chain vector"],
+    },
+    "C16": {
+        "units": ["categorical"],
+        "design_ref": "DESIGN.md §8 C16",
+        "technique": "Verus deductive proof in real arithmetic of contracts on the extracted Categorical::new / sample / logp (unbounded length, every uniform variate incl. exactly 0); Kani bounded companion on IEEE f32",
+        "level_text": "Unbounded deductive proof (Verus/z3) over every weight vector length and every value of the uniform variate in [0,1) (including exactly 0): new normalises to probabilities that sum to one, logp is ln p_i / -inf, sample returns an in-range index k with cum_{k-1} <= r <= cum_k and p_k > 0.",
+        "level_note": "Real arithmetic (no rounding): the rounding-induced fall-through to the last index is only visible to the bounded Kani companion (thorough tier, f32, length <= 3, labelled bounded). r in [0,1) is the assumed contract of rand's StandardUniform. Distribution of the result follows from inverse_cdf when r is uniform (not mechanised).",
+        "explanation": "loop with break verified through invariant_except_break + loop ensures; sum-to-one by an induction lemma",
+        "not_covered": ["uniformity of r", "IEEE rounding of the cumulative sums (bounded companion only)"],
+        "assumptions": ["rng.random::<T>() returns a finite value in [0,1)"],
+    },
+    "C18": {
+        "units": ["core"],
+        "design_ref": "DESIGN.md §8 C18",
+        "technique": "Verus deductive proof that the extracted _init/init_with_seed/init_det compute a spec function of (n, d, seed) over a functional PRNG model; prefix/shape/finiteness lemmas",
+        "level_text": "Unbounded deductive proof (Verus/z3) for all n, d, seed: the seeded helpers return exactly init_spec(seeded(seed), n, d) (n rows of length d, entry (i,j) the (i*d+j)-th standard-normal draw), init_det is init_with_seed(.,.,42), rows of a larger request are a prefix-extension of a smaller one, entries finite; init() has the right shape.",
+        "level_note": "Assumes SmallRng is a deterministic function of its state and StandardNormal yields finite values (rand/rand_distr contracts); that the draws are i.i.d. N(0,1) is not decidable here. init() uses OS entropy and is (correctly) not claimed pure.",
+        "explanation": "nested R-mapcollect loops with invariants over the generator state index i*d+j",
+        "not_covered": ["independent standard-normal distribution of the draws (rand_distr's contract)"],
+        "assumptions": ["StandardNormal.sample advances the generator by one 'normal' draw", "T::from_f64 is total on f32/f64"],
+    },
 }
 
 UNIT_PROPS = {
     "mh": ["C01", "C07", "C08", "C09", "C14"],
+    "gibbs": ["C05", "C07", "C09"],
+    "core": ["C09", "C10", "C18", "C07"],
+    "categorical": ["C16"],
 }
+
+HOOK_COMMITS = ["9c48c67"]
 
 NOT_APPLICABLE = {
     "C06": "distributional / asymptotic statement (law of large numbers with calibrated error): no contract a deductive verifier can discharge expresses it; see DESIGN.md §8 C06",
